@@ -1,6 +1,6 @@
 """C05 — only the seat on turn can play, only a card it holds; cards are conserved."""
 import play_common as pc
-from play_common import impl_exec, classify, nontrivial  # noqa: F401
+from play_common import impl_exec, impl_exec_multi, classify, nontrivial  # noqa: F401
 from common import Case
 
 TITLE = 'Only the seat on turn can play, only a card it holds; cards are conserved'
